@@ -4,8 +4,15 @@
 mod engine;
 mod refmodel;
 mod selftest;
+mod spaces;
 
+mod c01;
+mod c03;
+mod c18;
 mod c11;
+mod c15;
+mod c19;
+mod c20;
 
 use engine::*;
 use serde_json::Value;
@@ -14,7 +21,15 @@ type RunFn = fn(&mut Run) -> Finish;
 type RecheckFn = fn(&Value) -> Vec<Viol>;
 
 fn table() -> Vec<(&'static str, RunFn, RecheckFn)> {
-    vec![("C11", c11::run as RunFn, c11::recheck as RecheckFn)]
+    vec![
+        ("C01", c01::run as RunFn, c01::recheck as RecheckFn),
+        ("C03", c03::run, c03::recheck),
+        ("C11", c11::run, c11::recheck),
+        ("C18", c18::run, c18::recheck),
+        ("C15", c15::run, c15::recheck),
+        ("C19", c19::run, c19::recheck),
+        ("C20", c20::run, c20::recheck),
+    ]
 }
 
 fn usage() -> ! {
